@@ -1,5 +1,15 @@
 (* C17 — property theorems only (each closed by [exact]) + Print Assumptions.
-   Queries and requests keep their meaning across JSON and the query-string syntax. *)
+   Queries and requests keep their meaning across JSON and the query-string syntax.
+
+   What is a theorem here: totality of the transcribed lexer and parser, parse-of-print = documented
+   denotation for the query-string grammar (side condition: the strings avoid the reserved characters,
+   so escapes are NOT covered by the theorem, only by the correspondence cases), and the
+   unambiguity of ParseQuery's key dispatch over the regenerated tables.
+   What is NOT a theorem (DESIGN.md names them query_roundtrip_sem, request_roundtrip, qs_sem): "the
+   round-tripped query / request / parsed string returns the same results on any index".  There is no
+   executable semantics of searching in this engine; these three are established by execution only
+   (harness cmd/c17: both engines, random corpora; differences are reported as direct violations
+   json-exec-differs / request-exec-differs / qs-exec-differs). *)
 From Coq Require Import ZArith List.
 From Verif Require Import Common.Bytes QueryCodec.Lexer QueryCodec.Scalars QueryCodec.Grammar
   QueryCodec.Dispatch QueryCodec.LexProofs QueryCodec.QsLex QueryCodec.QsProofs.
